@@ -94,8 +94,8 @@ TEXT = {
           "of the binary heap is additionally compared slot by slot. Mirror-level theorems so far: probe postcondition, soundness of "
           "contains, enumeration length; for the heap mirror, heapify_up / heapify_down only permute the array (siftUp_perm, "
           "siftDown_perm), so push adds exactly its argument and pop removes exactly one occurrence of the element it returns "
-          "(C20_heap_push_perm, C20_heap_pop_perm), and remove takes out copies of its argument only, as many as it reports "
-          "(C20_heap_remove_perm): the array is always the multiset pushed minus popped or removed, for every history. The heap order "
+          "(C20_heap_push_perm, C20_heap_pop_perm), and remove takes out copies of its argument only, as many as it reports, and all of them "
+          "(C20_heap_remove_perm, C20_heap_remove_all): the array is always the multiset pushed minus popped or removed, for every history. The heap order "
           "is an invariant of every history: heapify_up restores it from 'broken between one position and its parent' (siftUp_ok), "
           "heapify_down from 'broken between one position and its children' (siftDown_ok), so push, pop and remove keep it "
           "(C20_heap_push_ok, C20_heap_pop_ok, C20_heap_remove_ok), every heap reachable from the empty one is in heap order "
